@@ -791,7 +791,7 @@ func main() {
 
 	// space C: one id, every word over {500,200} x {next response of the closed loop, stray txn id, abandoned retry +
 	// new call with the same id}
-	LC := args.Pick(6, 8)
+	LC := args.Pick(6, 7)
 	wcC := wordCount(6, LC)
 	var cfgsC []retryCfg
 	for _, mode := range []string{"flows", "policy"} {
